@@ -78,21 +78,58 @@ class Ideal:
                 self.holders.pop(i, None)
 
 
+CALL_FNS = ["keep", "drop2", "dropr", "store", "wrap", "cyc", "fail", "quit"]
+
+
+def call_effect(T, fn, a, b):
+    """what a call of harness/gc_h.c's function `fn` with the containers a, b does to the specification-level tracker
+    (-> id of the container the body allocated, or None)"""
+    if fn == "keep":
+        T.holders[a] = T.holders.get(a, 0) + 1
+    elif fn == "store":
+        T.kids[a].append(b)
+    elif fn == "wrap":
+        n = T.alloc()
+        T.kids[n] = [a, b]
+        return n
+    elif fn in ("cyc", "fail", "quit"):
+        n = T.alloc()
+        T.holders[n] = 0
+        T.kids[n] = [a, n]
+        return n
+    return None
+
+
 def in_contract(h):
     """a client may only name containers it can reach from a reference it holds (or ids that were never allocated:
     rejected on both sides).  Naming garbage is outside the API contract: e.g. deleting an element of a container
     that only refers to itself frees the container inside the running hawk_map_delete.  Used to filter the
     exhaustive set and the candidates of the shrinker."""
     T = Ideal()
+    quit_seen = False
     for op in h:
         w = op.split()
         k = w[0]
         if k in ("new", "close", "gc", "thr"):
             if k == "new":
                 T = Ideal()
+                quit_seen = False
             continue
         if k == "alloc":
             T.alloc()
+            continue
+        if k == "call":
+            if quit_seen:
+                return False          # hawk_rtx_callfun refuses calls after `exit`; the model has no such state
+            a = [int(x) for x in w[2:]]
+            if any(x >= T.n for x in a):
+                continue
+            if any(x not in T.reachable() for x in a):
+                return False
+            call_effect(T, w[1], a[0], a[1])
+            if w[1] == "quit":
+                quit_seen = True
+            T.prune()
             continue
         a = [int(x) for x in w[1:]]
         if any(x >= T.n for x in a):
@@ -131,8 +168,23 @@ def gen_history(rng, n, profile=None):
     """one API-level history: `new`, n operations, `close`"""
     T = Ideal()
     lines = ["new"]
-    prof = profile or rng.choice(["mixed", "mixed", "cycles", "pressure", "oldyoung", "oldyoung"])
+    prof = profile or rng.choice(["mixed", "mixed", "cycles", "pressure", "oldyoung", "oldyoung", "gen3", "gen3"])
     age = {}      # id -> number of collections requested since its allocation (a rough generation)
+    gcargs = GC_ARGS
+    if prof == "gen3":
+        # containers in all three generations before anything else happens (gc 0 twice promotes to generation 2, once
+        # to generation 1), then self- and cross-references in every direction between the generations, drops, and
+        # collections of each generation with equal weight; thresholds change on the way
+        for gcs in (["gc 0", "gc 1"], ["gc 0"], []):
+            for _ in range(rng.choice([1, 1, 2])):
+                age[T.alloc()] = 0
+                lines.append("alloc %s" % rng.choice(["m", "a", "d"]))
+            for g in gcs:
+                lines.append(g)
+                for i in age:
+                    age[i] += 1
+        gcargs = [0, 1, 2, 0, 1, 2, -1]
+        prof = rng.choice(["cycles", "thrmix"])
     if prof == "pressure":
         lines.append("thr 0 %d" % rng.choice([1, 2, 3, 4]))
         if rng.random() < 0.7:
@@ -140,6 +192,7 @@ def gen_history(rng, n, profile=None):
         if rng.random() < 0.7:
             lines.append("thr 2 %d" % rng.choice([1, 2, 3]))
     maxlive = rng.choice([3, 4, 5, 6, 8])
+    quit_done = False
     for _ in range(n):
         R = sorted(T.reachable())
         held = sorted(i for i in R if T.holders.get(i, 0) > 0)
@@ -183,12 +236,23 @@ def gen_history(rng, n, profile=None):
                     age[i] += 1
             T.prune()
             continue
-        if not R or (k < 0.22 and len(R) < maxlive) or (k < 0.05):
+        if R and not quit_done and rng.random() < (0.10 if prof != "pressure" else 0.05):
+            # the host calls a hawk function: the frame (arguments, locals, return value) holds containers while the body
+            # runs; bodies end by return, by a run-time error (fail) or by exit (quit: no call is possible afterwards)
+            fn = rng.choice(["keep", "drop2", "dropr", "store", "store", "wrap", "wrap", "cyc", "cyc", "fail", "fail", "quit"])
+            a_, b_ = rng.choice(R), rng.choice(R)
+            if not (fn == "store" and len(T.kids[a_]) >= 40):
+                n_ = call_effect(T, fn, a_, b_)
+                if n_ is not None:
+                    age[n_] = 0
+                quit_done = fn == "quit"
+                lines.append("call %s %d %d" % (fn, a_, b_))
+        elif not R or (k < 0.22 and len(R) < maxlive) or (k < 0.05):
             age[T.alloc()] = 0
             lines.append("alloc %s" % rng.choice(["m", "m", "a", "a", "d"]))
         elif k < 0.50:
             p = rng.choice(R)
-            if prof == "cycles" and rng.random() < 0.5:
+            if prof in ("cycles", "thrmix") and rng.random() < 0.5:
                 c = rng.choice([p] + R)
             else:
                 c = rng.choice(R)
@@ -231,12 +295,12 @@ def gen_history(rng, n, profile=None):
                 o = rng.choice(held)
                 T.holders[o] -= 1
                 lines.append("drop %d" % o)
-        elif k < 0.98:
-            lines.append("gc %d" % rng.choice(GC_ARGS))
+        elif k < (0.95 if prof == "thrmix" else 0.98):
+            lines.append("gc %d" % rng.choice(gcargs))
             for i in age:
                 age[i] += 1
         else:
-            lines.append("thr %d %d" % (rng.choice([0, 1, 2]), rng.choice([0, 1, 2, 3, 5, 100])))
+            lines.append("thr %d %d" % (rng.choice([0, 1, 2, -1, 3]), rng.choice([0, 1, 2, 3, 5, 100, -1])))
         T.prune()
     if rng.random() < 0.3:
         lines.append("gc 2")
@@ -247,7 +311,7 @@ def gen_history(rng, n, profile=None):
 def exhaustive_small(tier):
     """every sequence over a small alphabet after fixed prefixes (one object older than the other, or both young)"""
     alpha_full = ["gc 0", "gc 1", "gc 2", "link 0 1", "link 1 0", "link 1 1", "unlink 1 0", "drop 0", "drop 1", "root 0",
-                  "alloc a", "clear 1", "relink 1 0 0", "take 1 0"]
+                  "alloc a", "clear 1", "relink 1 0 0", "take 1 0", "call cyc 1 0", "call wrap 0 1", "call keep 1 0", "call fail 0 1"]
     alpha_red = ["gc 0", "gc 2", "link 1 0", "link 1 1", "link 0 1", "drop 1", "drop 0"]
     prefixes = [["new", "alloc m", "alloc m"], ["new", "alloc m", "gc 0", "alloc m"], ["new", "alloc a", "gc 1", "alloc a"]]
     out = []
@@ -332,6 +396,26 @@ def oracle(ops, outs):
                 holders[nxt] = 1
                 kids[nxt] = []
                 nxt += 1
+            elif w[0] == "call":
+                if r != "ERR":
+                    a = [int(x) for x in w[2:]]
+                    if any(x not in kids for x in a):
+                        raise KeyError("call on unknown object")
+                    fn = w[1]
+                    if fn == "keep":
+                        holders[a[0]] += 1
+                    elif fn == "store":
+                        kids[a[0]].append(a[1])
+                    elif fn == "wrap":
+                        if r != str(nxt):
+                            bad.append((i, "the container returned by the call got id %s, expected %d" % (r, nxt)))
+                        holders[nxt] = 1
+                        kids[nxt] = [a[0], a[1]]
+                        nxt += 1
+                    elif fn in ("cyc", "fail", "quit"):
+                        holders[nxt] = 0              # the frame's local: no holder once the frame is gone
+                        kids[nxt] = [a[0], nxt]
+                        nxt += 1
             elif r == "ok":
                 a = [int(x) for x in w[1:]]
                 if w[0] == "link":
@@ -421,6 +505,79 @@ def nontrivial_history(ops, mouts):
                         return True
         prev = d
     return False
+
+
+NONTRIVIAL_RULE = (
+    "a history/program is non-trivial iff the MODEL's dump stream (equal to the implementation's, line by line) shows at least one of: "
+    "gc_freed (a collection, explicit or by pressure, frees a container: a cycle was collected), cascade_multi (one refdown/element "
+    "freeer releases >= 2 containers recursively), cascade_frees_promoted (the refcount cascade outside a collection releases a "
+    "container of generation 1/2, i.e. one carrying GCH_MOVED), gc_cascade_into_older (a collection of generation g releases, through "
+    "the element freeer, a container of a generation > g), freed_pointing_to_older (a collected container has an element in an older "
+    "generation which survives: the stale-sentinel class), auto_gc (gc_calloc_val collects by pressure), survivor_promoted (a collection "
+    "moves a survivor to the next generation while freeing something in the same run), call_frame_wrap/cyc/fail/quit (the host calls a "
+    "hawk function whose frame holds the arguments and a local container; the body ends by return / run-time error / exit). distinct_nontrivial = number of distinct BRANCH "
+    "SIGNATURES among the non-trivial ones, where the signature abstracts object identities away: per operation (kind, rejected?, "
+    "generation collected, number freed capped at 4, generations of the freed, pointing-to-older flag, number promoted capped at 4, "
+    "generation of the container operated on). Two histories with the same signature take the same branches in the same order and count once.")
+
+
+def history_signature(ops, mouts):
+    """-> (signature, set of non-trivial branch features); see NONTRIVIAL_RULE"""
+    sig, feats, prev = [], set(), None
+    for op, line in zip(ops, mouts):
+        w = op.split()
+        if w[0] == "q":
+            continue
+        d = parse_dump(line)
+        if d is None:
+            sig.append((w[0],))
+            prev = None if w[0] in ("new", "close") else prev
+            continue
+        k = w[0]
+        ev = [k]
+        if d["r"] == "ERR":
+            ev.append("rej")
+        freed = d["freed"]
+        if prev is not None:
+            po = prev["objs"]
+            auto = k in ("alloc", "call") and d["p"][1:] != prev["p"][1:]
+            if k == "call":
+                ev.append(w[1])
+                if d["r"] != "ERR" and w[1] in ("wrap", "cyc", "fail", "quit"):
+                    feats.add("call_frame_" + w[1])
+            if k == "gc" or auto:
+                g = int(d["r"]) if k == "gc" else max([0] + [j for j in (1, 2) if d["p"][j + 1] != prev["p"][j + 1]])
+                ev.append("g%d" % g)
+                if auto:
+                    feats.add("auto_gc")
+                promoted = sum(1 for o, ob in d["objs"].items() if o in po and po[o]["gen"] != ob["gen"])
+                ev.append("P%d" % min(promoted, 4))
+                if freed:
+                    feats.add("gc_freed")
+                    ev.append("F%d" % min(len(freed), 4))
+                    ev.append(tuple(sorted({po[o]["gen"] for o in freed if o in po})))
+                    if any(o in po and po[o]["gen"] > g for o in freed):
+                        feats.add("gc_cascade_into_older")
+                        ev.append("casc-older")
+                    if any(c in d["objs"] and c in po and po[c]["gen"] > g for o in freed for c in po.get(o, dict(kids=[]))["kids"]):
+                        feats.add("freed_pointing_to_older")
+                        ev.append("to-older")
+                    if promoted:
+                        feats.add("survivor_promoted")
+            else:
+                if k in ("link", "unlink", "relink", "clear", "drop", "root", "take") and len(w) > 1 and w[1].isdigit() and int(w[1]) in po:
+                    ev.append("on-g%d" % po[int(w[1])]["gen"])
+                if freed:
+                    ev.append("C%d" % min(len(freed), 4))
+                    gens = tuple(sorted({po[o]["gen"] for o in freed if o in po}))
+                    ev.append(gens)
+                    if len(freed) >= 2:
+                        feats.add("cascade_multi")
+                    if any(x >= 1 for x in gens):
+                        feats.add("cascade_frees_promoted")
+        sig.append(tuple(ev))
+        prev = d
+    return tuple(sig), feats
 
 
 # ----------------------------------------------------------------------------------------------
@@ -645,9 +802,11 @@ def gen_abstract(rng, n):
         elif k < 0.65:
             ops.append(("clear", v))
         elif k < 0.70:
-            ops.append(("copy", v, w, rng.random() < 0.3))      # True: the value travels through a call and its return
-        elif k < 0.74:
+            ops.append(("copy", v, w, rng.choice([0, 0, 0, 1, 2])))   # 1: the value travels through a call and its return, 2: it is stored through a by-reference parameter (hawk_rtx_setrefval in hawk_rtx_evalcall)
+        elif k < 0.73:
             ops.append(("getchild", v, w, rng.randrange(4)))
+        elif k < 0.74:
+            ops.append(("splitinto", v))                         # a built-in creates a container and stores it through a reference to an element
         elif k < 0.87:
             ops.append(("nil", v))
             young.discard(v)
@@ -660,6 +819,10 @@ def gen_abstract(rng, n):
             # a loop that makes cyclic garbage referring to a held container: collections are triggered by allocation
             # pressure alone (with the default thresholds 100/20/10 when the count is large, as in real programs)
             ops.append(("churn", rng.choice([3, 10, 10, 40, 40, 120, 120, 300] + ([2300] if rng.random() < 0.15 else [])), v))
+        elif k < 0.965:
+            # the same garbage made in a local of a NESTED block: the slot lives in the outermost block's frame and is
+            # released/reset each time the nested block is entered again (run.c run_block0, nlcls != org_nlcls)
+            ops.append(("churn2", rng.choice([2, 3, 3, 10, 40, 120]), v))
         elif k < 0.97:
             ops.append(("observe", v))
         else:
@@ -673,6 +836,7 @@ def gen_abstract(rng, n):
 # Functions available to every generated program.
 PRELUDE = """function lnk_(p_, c_, k_) { p_[k_] = c_; return p_; }
 function idf_(s_, m_) { return m_; }
+function setref_(&r_, m_) { r_ = m_; return 1; }
 function mk_(n_) { @local m_; m_[1] = "value-" n_; return m_; }
 function mk2_(n_) { @local m_; m_["k"] = "value-" n_; m_["self"] = m_; return m_; }
 function f2_(a_, b_) { return 1; }
@@ -726,6 +890,7 @@ def render(aops):
     plan = []
     T = Ideal()
     fullgc = [False]
+    churn2_done = [False]
     for _ in range(PREALLOC_CLI):
         T.alloc()
 
@@ -779,7 +944,7 @@ def render(aops):
             a = (k, pick(a[1], lambda i: bool(slots[i]))) + tuple(a[2:])
         elif k == "getchild":
             a = (k, a[1], pick(a[2], lambda i: bool(slots[i]))) + tuple(a[3:])
-        elif k == "clear":
+        elif k in ("clear", "splitinto"):
             a = (k, pick(a[1], lambda i: True))
         if k == "new":
             v, how = a[1], a[2]
@@ -882,10 +1047,27 @@ def render(aops):
             if old is not None:
                 drop(old)
             var[a[1]] = src
-            if len(a) > 3 and a[3]:
+            if len(a) > 3 and a[3] == 2:
+                stmts.append("setref_(v%d, v%d);" % (a[1], a[2]))
+            elif len(a) > 3 and a[3]:
                 stmts.append("v%d = idf_(\"pad-\" vzero, v%d);" % (a[1], a[2]))
             else:
                 stmts.append("v%d = v%d;" % (a[1], a[2]))
+        elif k == "splitinto":
+            p = var[a[1]]
+            if p is None or len(slots[p]) > 30:
+                continue
+            key = newkey(p)
+            i = nid[0]
+            nid[0] += 1
+            T.alloc()
+            slots[i] = []
+            isarr[i] = False
+            slots[p].append((key, i))
+            T.kids[p].append(i)
+            model += ["q alloc m", "q link %d %d" % (p, i), "drop %d" % i]     # fnc_split: makemapval + refup, setrefval (element), refdown
+            T.holders[i] -= 1
+            stmts.append('vtmp_ = split("p q r", v%d[%d]);' % (a[1], key))
         elif k == "getchild":
             p = var[a[2]]
             if p is None or not slots[p]:
@@ -922,6 +1104,32 @@ def render(aops):
                 T.prune()
             model.append("thr 0 -1")                  # changes nothing; makes the driver dump the state after the loop
             stmts.append("for (i_ = 0; i_ < %d; i_++) { t_[1] = %s; t_[2] = t_; t_ = @nil; }" % (n, ("v%d" % a[2]) if kv is not None else "i_"))
+        elif k == "churn2":
+            if churn2_done[0]:
+                continue      # sibling nested blocks share their slots: one such loop per program keeps the model simple
+            churn2_done[0] = True
+            n, kv = a[1], var[a[2]]
+            prev = None
+            for _ in range(n):
+                if prev is not None:
+                    model.append("q drop %d" % prev)      # re-entering the block releases what the slot still holds
+                    T.holders[prev] -= 1
+                j = nid[0]
+                nid[0] += 1
+                T.alloc()
+                slots[j] = []
+                isarr[j] = False
+                model.append("q alloc m")
+                if kv is not None:
+                    model.append("q link %d %d" % (j, kv))
+                    T.kids[j].append(kv)
+                model.append("q link %d %d" % (j, j))
+                T.kids[j].append(j)
+                prev = j
+                T.prune()
+            # the container of the last iteration stays held by the slot until the outermost block is left
+            model.append("thr 0 -1")
+            stmts.append("for (i_ = 0; i_ < %d; i_++) { @local tt_; tt_[1] = %s; tt_[2] = tt_; }" % (n, ("v%d" % a[2]) if kv is not None else "i_"))
         elif k == "observe":
             i = var[a[1]]
             stmts.append('print "O", hawk::ismap(v%d), hawk::isarray(v%d), hawk::isnil(v%d), hawk::typename(v%d), hawk::function_exists("lnk_");' % ((a[1],) * 4))
@@ -1079,7 +1287,7 @@ def cli_text(r):
            "\n".join("#   output line %d: %s" % (i, t) for i, t in r["orc"]) + "\n# stderr:\n" + r["err"][-2500:]
 
 
-def cli_level(ctx, libdir, ncases, defer_corr_to_after):
+def cli_level(ctx, libdir, ncases, defer_corr_to_after, sigs_out=None):
     # private copy: the shared build cache may be pruned by a concurrent check while this one is running
     hawk = os.path.join(ctx.scratch, "hawk-c07")
     if not os.path.exists(hawk):
@@ -1124,6 +1332,9 @@ def cli_level(ctx, libdir, ncases, defer_corr_to_after):
         pos += len(r[1])
     with ThreadPoolExecutor(max_workers=8) as ex:
         results = list(ex.map(lambda a: cli_case(ctx, hawk, cases[a], "g%d" % a, rendered[a], mouts[a]), range(len(cases))))
+    if sigs_out is not None:
+        for r, mo in zip(rendered, mouts):
+            sigs_out.append((r[1], mo))
     evals += len(cases)
     for aops in cases:
         ends[aops[-1][1]] = ends.get(aops[-1][1], 0) + 1
@@ -1279,6 +1490,126 @@ def valueflow_level(ctx, libdir, n):
     return len(results), stats
 
 
+# ----------------------------------------------------------------------------------------------
+# language level, third family (oracle only): every way a call frame is built and torn down.
+# A frame holds a reference on each argument while the callee runs (run.c hawk_rtx_evalcall: three different loops
+# give them back - direct call with argument nodes, the fake call of hawk::call() for a callee WITH by-reference
+# parameters, the trailing loop for everything else incl. hawk_rtx_callfun from C).  Cases = parameter lists of 1..3
+# parameters, each by value or by reference (&) in every order x which variable (map / array / heap string) is bound
+# to which parameter x direct call / hawk::call x the callee leaves its by-reference parameter alone / assigns it x
+# the callee returns / fails with a run-time error / executes exit x variables named / local.  The property, evaluated
+# on the program's own output: the reference count of each container (read through a second holder) is the same before
+# and after three calls (one less when the callee replaced the caller's variable), and closing the runtime leaves no
+# block behind (LeakSanitizer) also after error / exit.
+# ----------------------------------------------------------------------------------------------
+CF_VARS = ["m", "a", "s"]
+
+
+def cf_cases():
+    out = []
+    for n in (1, 2, 3):
+        for spec in itertools.product("vr", repeat=n):
+            for rot in range(3):
+                for touch in ((0, 1) if "r" in spec else (0,)):
+                    for ending in ("normal", "error", "exit"):
+                        for how in ("direct", "hcall"):
+                            for st in ("named", "local"):
+                                out.append(("".join(spec), rot, touch, ending, how, st))
+    return out
+
+
+def cf_render(case):
+    """-> (program, expected difference after - before of gcrefs(keepm), gcrefs(keepa))"""
+    spec, rot, touch, ending, how, st = case
+    n = len(spec)
+    args = [CF_VARS[(rot + i) % 3] for i in range(n)]
+    params = ", ".join(("&p%d_" % i if spec[i] == "r" else "p%d_" % i) for i in range(n))
+    body = ["cnt_++;"]
+    dm = da = 0
+    if touch:
+        k = spec.index("r")
+        body.append('p%d_ = "new-" cnt_;' % k)        # the caller's variable gets a fresh string: its old value loses that holder
+        if args[k] == "m":
+            dm = -1
+        elif args[k] == "a":
+            da = -1
+    if ending == "error":
+        body.append("zz_ = 0; return 1 / zz_;")
+    elif ending == "exit":
+        body.append("exit 3;")
+    body.append("return 1;")
+    fn = "function f_(%s) { %s }\n" % (params, " ".join(body))
+    call = "r_ = f_(%s);" % ", ".join(args) if how == "direct" else 'r_ = hawk::call("f_", %s);' % ", ".join(args)
+    main = ['vz_ = 0;', 'm[1] = "x" vz_; m[2] = "y";', 'a = hawk::array("p" vz_, 2);', 's = "str-" vz_;', 'keepm = m; keepa = a;',
+            'print "B", hawk::gcrefs(keepm), hawk::gcrefs(keepa);',
+            'for (i_ = 0; i_ < 3; i_++) { %s }' % call,
+            'print "A", hawk::gcrefs(keepm), hawk::gcrefs(keepa);']
+    text = "\n".join("  " + x for x in main)
+    if st == "local":
+        return fn + "function body_() {\n  @local m, a, s, keepm, keepa, vz_, i_, r_;\n" + text + "\n}\nBEGIN { body_(); }\n", (dm, da)
+    return fn + "BEGIN {\n" + text + "\n}\n", (dm, da)
+
+
+def cf_oracle(case, exp, out, st, err):
+    spec, rot, touch, ending, how, stg = case
+    L = {l.split(" ", 1)[0]: l.split()[1:] for l in out if l[:2] in ("B ", "A ")}
+    bad = []
+    if st in ("ASAN", "UBSAN", "LEAK", "HANG") or st.startswith("SIGNAL"):
+        bad = ["closing the runtime left blocks behind / sanitizer status %s (a frame kept a reference on an argument)" % st]
+        if "B" in L and "A" in L and len(L["B"]) == 2 and len(L["A"]) == 2:
+            for name, b, a_, d in (("the map", L["B"][0], L["A"][0], exp[0]), ("the array", L["B"][1], L["A"][1], exp[1])):
+                if int(a_) - int(b) != d:
+                    bad.append("reference count of %s passed as an argument: %s before, %s after three calls (expected difference %d)" % (name, b, a_, d))
+        return bad
+    if "B" not in L:
+        return ["the program did not get to its first output line (status %s): %s" % (st, err[-200:])]
+    if ending == "normal":
+        if st != "ok" or "A" not in L:
+            return ["the program did not end normally (status %s): %s" % (st, err[-200:])]
+        for name, b, a_, d in (("the map", L["B"][0], L["A"][0], exp[0]), ("the array", L["B"][1], L["A"][1], exp[1])):
+            if int(a_) - int(b) != d:
+                bad.append("reference count of %s passed as an argument is %s before and %s after three calls (expected difference %d): "
+                           "the frame did not give back exactly the references it took" % (name, b, a_, d))
+    elif ending == "error":
+        if not (st == "EXIT255" and "divide by zero" in err):
+            bad.append("expected the run-time error of the callee, got status %s" % st)
+    else:
+        if st != "EXIT3":
+            bad.append("expected exit code 3 from the callee's exit, got status %s" % st)
+    return bad
+
+
+def callframe_level(ctx, libdir, nrandom):
+    hawk = os.path.join(ctx.scratch, "hawk-c07")
+    if not os.path.exists(hawk):
+        shutil.copy(os.path.join(libdir, "hawk"), hawk)
+    allc = cf_cases()
+    # always: every parameter list x binding x touch through hawk::call and directly, normal ending, named variables
+    fixed = [c for c in allc if c[3] == "normal" and c[5] == "named"]
+    rest = [c for c in allc if not (c[3] == "normal" and c[5] == "named")]
+    cases = fixed + (rest if nrandom >= len(rest) else ctx.rng.sample(rest, nrandom))
+    from concurrent.futures import ThreadPoolExecutor
+
+    def run1(a):
+        k, case = a
+        prog, exp = cf_render(case)
+        rc, out, err, st = run_cli(hawk, prog, ctx.scratch, "c%d" % k)
+        return case, prog, out, err, st, cf_oracle(case, exp, out, st, err)
+    with ThreadPoolExecutor(max_workers=8) as ex:
+        results = list(ex.map(run1, enumerate(cases)))
+    stats = dict(programs=len(results), of=len(allc))
+    for case, prog, out, err, st, orc in results:
+        if orc:
+            ctx.problem("impl", "call frame: f_(%s) called %s with (%s), callee %s its by-reference parameter and %s, %s variables, breaks C07: %s" % (
+                ",".join("&" if x == "r" else "v" for x in case[0]), "through hawk::call" if case[4] == "hcall" else "directly",
+                ",".join(CF_VARS[(case[1] + i) % 3] for i in range(len(case[0]))), "assigns" if case[2] else "leaves alone",
+                dict(normal="returns", error="fails with a run-time error", exit="executes exit")[case[3]], case[5], "; ".join(orc)[:500]),
+                "# run: hawk -f <file> with ASAN_OPTIONS=detect_leaks=1 (sanitized build); line A must equal line B (minus 1 where the callee replaced the variable)\n" +
+                prog + "\n# got:\n" + "\n".join(out) + "\n# stderr:\n" + err[-2500:], found_input=True)
+            break
+    return len(results), stats
+
+
 # programs with call frames, locals, returned containers, for-in, nested creation; (program, expected stdout or None)
 FIXED_PROGRAMS = [
     # Every line these programs print is demanded by the property itself, not by the model: differences of
@@ -1310,7 +1641,27 @@ FIXED_PROGRAMS = [
 
 
 # ----------------------------------------------------------------------------------------------
+GEN_CONST = os.path.join(C.LEAN, "HawkModel", "Gen", "GcConst.lean")
+
+
+def translate(ctx):
+    """extract/gc_const.py: constants + phase skeleton of the collector from the checked tree -> Gen/GcConst.lean
+    (Props/C07 consts_match_source is proved against it).  Returns the exception text on an unknown source shape."""
+    import importlib.util
+    try:
+        spec = importlib.util.spec_from_file_location("gc_const", os.path.join(C.VERIF, "extract", "gc_const.py"))
+        m = importlib.util.module_from_spec(spec)
+        spec.loader.exec_module(m)
+        vals = m.extract(C.REPO)
+        if C.write_if_changed(GEN_CONST, m.render(vals)):
+            ctx.log("extract: lean/HawkModel/Gen/GcConst.lean regenerated: %r" % vals)
+        return None
+    except Exception as e:
+        return str(e)
+
+
 def run(ctx):
+    trans_err = translate(ctx)
     proof = C.prove(ctx, "HawkModel.Props.C07", leanchecker=(ctx.tier == "thorough"))
     libdir = C.build_libhawk(ctx)
     exe = C.cc_harness(ctx, os.path.join(C.VERIF, "harness", "gc_h.c"), link_lib=libdir)
@@ -1336,7 +1687,10 @@ def run(ctx):
             dist[l.split()[0]] = dist.get(l.split()[0], 0) + 1
     # branch coverage measured on the model's output: collections that freed something, cascades, ERR, auto collections
     br = dict(gc_freed=0, cascade_freed=0, rejected=0, auto_gc_in_alloc=0, auto_gc_freed=0, full_gc=0, freed_pointing_to_older=0)
-    nontriv = set()
+    nontriv = {}           # branch signature -> first history with it (see NONTRIVIAL_RULE)
+    nontriv_text = set()
+    nontriv_hist = 0
+    featc = {}
     for h, mo in zip(histories, mouts):
         prevd = None
         for op, line in zip(h, mo):
@@ -1352,14 +1706,21 @@ def run(ctx):
                 br["cascade_freed"] += 1
             if d["r"] == "ERR":
                 br["rejected"] += 1
-            if w == "alloc" and prevd is not None and d["p"][1:] != prevd["p"][1:]:
+            if w in ("alloc", "call") and prevd is not None and d["p"][1:] != prevd["p"][1:]:
                 br["auto_gc_in_alloc"] += 1
                 if d["freed"]:
                     br["auto_gc_freed"] += 1
             prevd = d
         if nontrivial_history(h, mo):
             br["freed_pointing_to_older"] += 1
-            nontriv.add(tuple(h))
+        sg, feats = history_signature(h, mo)
+        if feats:
+            nontriv_hist += 1
+            nontriv_text.add(tuple(h))
+            if sg not in nontriv:
+                nontriv[sg] = h
+            for f in feats:
+                featc[f] = featc.get(f, 0) + 1
     ncli = 500 if ctx.tier == "quick" else 10000
     cli_evals, ends = (0, {})
     vf_evals, vf_stats = (0, {})
@@ -1367,39 +1728,71 @@ def run(ctx):
         # oracle-only family (leaf values handed from holder to holder, fields as holders); before any correspondence verdict
         vf_evals, vf_stats = valueflow_level(ctx, libdir, 400 if ctx.tier == "quick" else 10 ** 9)
         ctx.log("value-flow family done: %d programs" % vf_evals)
+    cf_evals, cf_stats = (0, {})
+    if not ctx.problems:
+        cf_evals, cf_stats = callframe_level(ctx, libdir, 170 if ctx.tier == "quick" else 10 ** 9)
+        ctx.log("call-frame family done: %d programs" % cf_evals)
     if not ctx.problems:
         # the language-level oracle runs before any correspondence difference is reported
-        cli_evals, ends = cli_level(ctx, libdir, ncli, dict(api=api_corr is not None))
+        cli_sigs = []
+        cli_evals, ends = cli_level(ctx, libdir, ncli, dict(api=api_corr is not None), cli_sigs)
+        for model, mo in cli_sigs:
+            sg, feats = history_signature(model, mo)
+            if feats:
+                nontriv_hist += 1
+                nontriv_text.add(tuple(model))
+                if sg not in nontriv:
+                    nontriv[sg] = model
+                for f in feats:
+                    featc["cli:" + f] = featc.get("cli:" + f, 0) + 1
     ctx.log("language level done: %d programs" % cli_evals)
     if not ctx.problems and api_corr is not None:
         report_api_corr(ctx, exe, api_corr)
-    evaluations += cli_evals + vf_evals
-    samples = [" ; ".join(h[:14]) for h in list(nontriv)[:3]] + [" ; ".join(histories[-1][:14])]
+    if not ctx.problems and trans_err is not None:
+        # no failing input was found by the oracles, but the collector's source no longer has the shape the model transcribes
+        ctx.problem("corr", "translator extract/gc_const.py does not recognise lib/val.c / lib/run.c / lib/hawk-prv.h of this tree (constants, "
+                    "order of the collector's phases, promotion rule, counter updates, pressure comparisons): %s" % trans_err[:400],
+                    trans_err, found_input=False)
+    evaluations += cli_evals + vf_evals + cf_evals
+    samples = [" ; ".join(h[:14]) for h in list(nontriv.values())[:3]] + [" ; ".join(histories[-1][:14])]
     return C.finish(ctx, [proof], evaluations, len(nontriv),
                     "API histories = corpus + every sequence over a 14-op (length 2/3) and a 7-op (length 4/5) alphabet after 3 prefixes "
-                    "(old+young object) + seeded random histories (profiles mixed/cycles/pressure/deep, <= 45 ops, maps and arrays, "
+                    "(old+young object) + seeded random histories (profiles mixed/cycles/pressure/oldyoung/gen3 = containers in all three generations cross- and self-linked in every direction, <= 45 ops, maps and arrays, "
                     "explicit gc of every generation incl. -1/3/7, threshold changes, 3% unchecked ops) each ending in close; every op's "
                     "return value and the full real state (v_refs, gc_refs incl. sentinels, generation list membership, container elements, "
                     "pressure/threshold, freed set, host blocks left after hawk_rtx_close) compared with the Lean model and checked directly "
                     "against the ledger/reachability property; plus generated and fixed hawk programs under ASan+LeakSanitizer comparing "
-                    "hawk::gcrefs of every variable, of the first container element of every variable's container (read back through the container; elements go to the smallest free index from 0) and the pressure counters after every statement; stores/copies also through user-function calls; exit/error endings strike in 13 expression contexts (later call arguments after fresh strings/maps, built-ins, nested frames with locals, for-in, print, concatenation, index expressions). distinct_nontrivial = distinct API "
-                    "histories in which a collection frees an object that has an element in an older generation than the collected one "
-                    "which survives. Further families: allocation loops (`churn`) that trigger collections by pressure alone, also with the default "
+                    "hawk::gcrefs of every variable, of the first container element of every variable's container (read back through the container; elements go to the smallest free index from 0) and the pressure counters after every statement; stores/copies also through user-function calls; exit/error endings strike in 13 expression contexts (later call arguments after fresh strings/maps, built-ins, nested frames with locals, for-in, print, concatenation, index expressions). distinct_nontrivial rule: " + NONTRIVIAL_RULE +
+                    " Further families: allocation loops (`churn`) that trigger collections by pressure alone, also with the default "
                     "thresholds; containers built by hawk::array(x,..)/hawk::map(k,x,..), stores through hawk::call; API level: "
-                    "hawk_rtx_makemapvalwithdata, elements fetched with getmapvalfld/getarrvalfld/the map iterator (`take`); value-flow "
+                    "hawk_rtx_makemapvalwithdata, elements fetched with getmapvalfld/getarrvalfld/the map iterator (`take`); `call f a b`: the host calls "
+                    "one of 7 hawk functions with hawk_rtx_callwithbcstr (frame = arguments + locals + return-value slot as holders; bodies return an "
+                    "argument, store one argument into the other, return a new container, leave a self-referring local behind, end by a run-time "
+                    "error, end by exit), compared state by state with HawkModel.GcCall; language level also by-reference parameters (setrefval) and "
+                    "split() into a container element; call-frame family (oracle only): parameter lists of 1..3 by-value/by-reference parameters in every order x "
+                    "map/array/string bound to each x direct call / hawk::call x by-reference parameter assigned or not x return / run-time error / exit x "
+                    "named/local variables: gcrefs of every argument equal before and after three calls, no block left at close; value-flow "
                     "family (oracle only): inc/dec/assignment forms x variable/element/field targets x float/string/boxed-int values, "
                     "result kept across churn of the free lists and caches must not change (line B = line A, identity = 1)",
                     samples,
                     extra_cov=dict(op_distribution=dist, histories=len(histories), exhaustive_histories=nexh, corpus_histories=ncorpus,
-                                   branch_hits=br, cli_programs=cli_evals, cli_endings=ends, valueflow=vf_stats, impl_status=status),
-                    trusted=["val.c refcount/collector modelled by hand in HawkModel/Gc.lean: containers only (leaf values, the str/mbs/ref "
+                                   branch_hits=br, nontrivial_feature_hits=featc, nontrivial_histories_and_programs=nontriv_hist,
+                                   nontrivial_distinct_texts=len(nontriv_text), nontrivial_distinct_signatures=len(nontriv),
+                                   cli_programs=cli_evals, cli_endings=ends, valueflow=vf_stats, callframe=cf_stats, impl_status=status),
+                    trusted=["sentinels, number of generations, initial thresholds: extracted by extract/gc_const.py on every run (Gen/GcConst.lean, "
+                             "Props consts_match_source); the same extractor checks the textual shape of gc_collect_garbage_in_generation / _auto / gc_calloc_val",
+                             "val.c refcount/collector modelled by hand in HawkModel/Gc.lean: containers only (leaf values, the str/mbs/ref "
                              "caches and the int/flt chunk free lists are 'freed' as far as the model goes; their integrity is left to ASan)",
                              "order inside the generation lists and map iteration order are not modelled (only membership is compared)",
                              "a finalised shell leaves the model heap before, in the C after, its elements are visited",
-                             "API harness writes gc.threshold directly; hawk::gc_set_threshold itself is exercised at the CLI level only"],
+                             "API harness writes gc.threshold directly; hawk::gc_set_threshold itself is exercised at the CLI level only",
+                             "calls: the model knows the frame of hawk_rtx_callfun as a sequence of holder operations (GcCall.callOps); the evaluation of the "
+                             "body's statements (run.c eval_expression, assignment) is not transcribed, only its effect on the ledger; fail/quit are the "
+                             "model's cyc (same ledger effect through the error/exit paths of run_block and hawk_rtx_evalcall)"],
                     assumptions=["host allocator never refuses (the retry-after-full-gc paths of gc_calloc_val/makemapval are not modelled)",
                                  "fewer than 2^32 references to one value (v_refs is 32 bits wide)",
-                                 "clients respect the API contract: only operate on objects they can reach, relink only values they hold"])
+                                 "clients respect the API contract: only operate on objects they can reach, relink only values they hold, "
+                                 "no hawk_rtx_callfun after a called function executed exit (the call is refused with EPERM)"])
 
 
 def replay(ctx, path):
